@@ -6,6 +6,9 @@
 2. C->M record validation: the REAL iec.NodeSequenceForPart is run over the same full range; TLC evaluates
    the property on the recorded sequences (PropOnRecords) and checks records = spec function (CodeIsSpec).
    Verdict comes from PropOnRecords only; CodeIsSpec failing alone = model out of date (exit 2).
+3. The USERS of the order: the real policer recreateECPart (node list of the replication task of a recreated part)
+   and the real PUT ecNodesForPart are run for every part of many (parts, nodes) pairs; the applied orders are
+   validated the same way (spec/TraceNodeUsers.tla).
 The general (unbounded) statement is NOT claimed (see notes/ec.md)."""
 import json, os, re
 import vkit
@@ -74,6 +77,30 @@ def run(ck):
                              "the record: the model is out of date, not a verdict" % (rec["t"], rec["n"]))
         else:
             raise vkit.Infra("record validation failed: %s %s at record %d" % (v.kind, v.name, pos))
+    # the USERS of the order (policer recreation of a lost part, PUT placement list) must apply exactly this order
+    if not ck.replay:
+        users = os.path.join(ck.tmp, "nodeusers.ndjson")
+        ck.harness(binp, ["nodeusers", 20 if thorough else 12, 64 if thorough else 40, users])
+        ud = vkit.read_ndjson(users)
+        if len(ud) < 1000 or {r["user"] for r in ud} != {"policer-recreate", "put-nodes"}:
+            raise vkit.Infra("vacuous users run: %d records" % len(ud))
+        ck.setcov("user_orders_validated", len(ud))
+        ck.add("traces_validated_against_impl", len(ud))
+        uv = ck.tlc_validate("TraceNodeUsers", "TraceNodeUsers.cfg", users, timeout=900)
+        if not uv.ok:
+            pos = last_l(uv) or 1
+            if uv.name == "CodeIsSpec":
+                ms = re.findall(r"/\\ drift = (\d+)", uv.out)
+                pos = int(ms[-1]) if ms else pos
+            rec = ud[min(pos, len(ud)) - 1]
+            if uv.kind == "invariant" and uv.name == "PropOnRecords":
+                ck.violation("%s applies a node order that breaks C22 for part %d of %d over %d nodes: %s" % (
+                    rec["user"], rec["p"], rec["t"], rec["n"], rec["seq"][:40]), {"t": rec["t"], "n": rec["n"], "user_record": rec})
+            elif uv.kind == "invariant" and uv.name == "CodeIsSpec":
+                raise vkit.Infra("%s applies an order different from NodeSequenceForPart (t=%d n=%d p=%d) while the property holds: "
+                                 "model out of date, not a verdict" % (rec["user"], rec["t"], rec["n"], rec["p"]))
+            else:
+                raise vkit.Infra("users validation failed: %s %s" % (uv.kind, uv.name))
     if thorough and not ck.replay:
         # optional: arithmetic lemmas towards the unbounded statement (Apalache, unbounded integers). Evidence only.
         res = {}
